@@ -102,9 +102,9 @@ pub open spec fn spec_sim(a: Seq<char>, b: Seq<char>) -> f64 {
         to_f64(cset(a).intersect(cset(b)).len() as int).div_spec(to_f64(cset(a).union(cset(b)).len() as int))
     }
 }
-proof fn lemma_dedup(s: Seq<char>)
+broadcast proof fn lemma_dedup(s: Seq<char>)
     requires sorted_le(s)
-    ensures sorted_strict(dedup_spec(s)), dedup_spec(s).len() <= s.len(),
+    ensures sorted_strict(#[trigger] dedup_spec(s)), dedup_spec(s).len() <= s.len(),
         forall|x: char| dedup_spec(s).contains(x) <==> s.contains(x),
         s.len() > 0 ==> dedup_spec(s).len() > 0 && dedup_spec(s).last() == s.last(),
     decreases s.len()
@@ -166,6 +166,9 @@ impl Jaccard {
         requires slice1@.len() <= 0x4000_0000, slice2@.len() <= 0x4000_0000,
         ensures jac_sim_is(ret, slice1@, slice2@),
     {
+        // the facts about de-duplicating a sorted buffer are applied wherever dedup_spec occurs: no snapshot of the buffers is taken,
+        // so the order in which the two buffers are sorted and de-duplicated does not matter to the proof
+        broadcast use lemma_dedup;
         match (slice1.len(), slice2.len()) {
             (0, 0) => return 1.0,
             (0, _) => return 0.0,
@@ -180,9 +183,6 @@ impl Jaccard {
         set2.copy_from_slice(&slice2);
         set1.sort_unstable();
         set2.sort_unstable();
-        let ghost sorted1 = set1@;
-        let ghost sorted2 = set2@;
-        proof { lemma_dedup(sorted1); lemma_dedup(sorted2); }
         set1.dedup();
         set2.dedup();
         proof {
